@@ -108,6 +108,11 @@ class BOMixin:
             return BODType(ref, h.names, h.order)
         if attr in ("copy", "byteswap", "view"):
             return Bound(ref, Prim("ndarray." + attr))
+        if attr == "size":
+            n = z3.Int("bo!size!%d" % (h.buf if h.buf is not None else ref.id))
+            if not any(f.eq(n >= 0) for f in st.pc):
+                st.pc.append(n >= 0)
+            return n
         raise Unsupported("attribute .%s of a byte-order array" % attr, node)
 
     def bodtype_attr(self, d, attr, st, fr, node):
